@@ -84,6 +84,15 @@ func c04Gen(tier string, emit func(c04Case)) {
 			}
 		}
 	}
+	// the request reaches the measured route through another route's forwarding middleware (no global middleware)
+	for n := 2; n <= 4; n++ {
+		for _, sp := range splitsOf(n - 1) {
+			if sp[0] > 0 {
+				continue
+			}
+			vectors("pn", n, func(b string) { push(chainShape{N: n, Split: sp, Via: viaFor(sp), Beh: b, Hooks: "Y"}) })
+		}
+	}
 	// caller-owned spread slices with spare capacity, reused by the caller for a second router / a sibling route
 	for n := 2; n <= 4; n++ {
 		for _, sp := range splitsOf(n - 1) {
